@@ -517,7 +517,7 @@ PLANS = {
     "C14": [M(["mutualask"], 4, 40), S(["deadlock"], 48000, 400000, perts=(2, 4)), S(["deadlock"], 12000, 100000, mode="erased", seed_off=300)],
     "C15": [MIRI, M(["dlrace", "nest"], 8, 50, seed_off=31), S(["deadlock"], 48000, 400000, perts=(2, 4), seed_off=500), S(["deadlock"], 12000, 100000, mode="erased", seed_off=800), S(["traffic", "faults"], 9000, 60000)],
     "C16": [M(["blocking", "notime"], 7, 40), S(["traffic", "refs", "timeouts", "kill", "lifecycle", "backpressure", "idle", "faults"], 7500, 60000, mode="diff"), S(["deadlock"], 6000, 40000, mode="diff", seed_off=700), S(["refs", "traffic", "kill"], 6000, 40000, mode="diff", build="none", seed_off=1000)],
-    "C20": [MIRI, M(["readers"], 6, 60), M(["slow"], 2, 20, seed_off=5), M(["metricsrace", "abort"], 6, 40, seed_off=6), {"engine": "gen", "actors": (16, 120), "rounds": (1, 2), "skip_negatives": True}, S(["metrics", "traffic", "kill", "faults"], 15000, 120000)],
+    "C20": [MIRI, M(["readers"], 6, 60), M(["slow"], 2, 20, seed_off=5), M(["metricsrace", "abort"], 6, 40, seed_off=6), {"engine": "gen", "actors": (16, 120), "rounds": (1, 2), "skip_negatives": True}, S(["metrics", "traffic", "kill", "faults"], 15000, 120000), S(["metrics", "traffic"], 6000, 40000, trace_verbose=True, seed_off=77)],
     "C17": [M(["blocking"], 8, 90), M(["general"], 6, 60, seed_off=77), M(["hogged", "dropsend", "hookblocking", "blockpair", "poolfull"], 15, 80, seed_off=13), M(["bigmsg"], 1, 3, seed_off=3, abort_is_violation="C17.same_rules")],
     "C19": [M(["blocking", "general"], 6, 40), {"engine": "gen", "actors": (60, 400), "rounds": (1, 3)}, S(["traffic", "faults"], 9000, 60000)],
     "C18": [{"engine": "mtdiff", "profiles": ["notime", "hookblocking", "slow"], "args": (["--profiles", "notime,hookblocking,slow", "--secs", 6], ["--profiles", "notime,hookblocking,slow", "--secs", 30]), "timeout": (240, 600)}, {"engine": "featdiff", "profiles": ["traffic", "backpressure", "lifecycle", "kill", "refs", "idle", "timeouts", "faults", "metrics", "overlap"], "count": (1500, 20000)}],
